@@ -46,7 +46,7 @@ fn lenient_key(k: KeyCode) -> bool {
 }
 
 enum Sut {
-    Kb(Keyboard<DynLayout, DynSet>),
+    Kb(KbAny),
     Ed(EventDecoder<DynLayout>),
 }
 impl Sut {
@@ -289,12 +289,12 @@ impl Scenario for Events {
         let mut sut = if cfg.obj == 1 {
             Sut::Ed(EventDecoder::new(mk(0), hc(cfg.map)))
         } else {
-            Sut::Kb(Keyboard::new(DynSet::new(cfg.set), mk(0), hc(cfg.map)))
+            Sut::Kb(KbAny::new(cfg.set, mk(0), hc(cfg.map)))
         };
         let mut refm = initial_mods();
         // C14 only: a twin Keyboard fed the same events gives the live modifier state of a
         // bare EventDecoder (which has no getter) without consulting the C04 model
-        let mut twin = Keyboard::new(DynSet::new(cfg.set), DynLayout::Null, hc(cfg.map));
+        let mut twin = KbAny::new(cfg.set, DynLayout::Null, hc(cfg.map));
         let mut mode = cfg.map;
         let mut queue: VecDeque<KeyEvent> = VecDeque::new();
         let mut violation: Option<Violation> = None;
